@@ -322,7 +322,7 @@ inductive Clause where
   /-- `ARCHIVE / TOMBSTONE target [EXPECT STATE]` -/
   | setState (t : Ref) (to : St) (expect : Option St)
   /-- `RETRACT ASSERTION target [EXPECT STATE status]`; an Assertion's lifecycle status is its `val`
-  (0 = active, 1 = retracted) -/
+  (0 = active, 1 = retracted, 2 = the empty status of a purged identity stub, see `stubRow`) -/
   | retract (t : Ref) (expect : Option Nat)
   /-- `PURGE target [REFERENCE POLICY …] CONFIRM "PURGE"`; `bad`: refused while it is staged (still
   referenced under `deny_if_referenced`, legal hold, approval) -/
@@ -431,6 +431,12 @@ def pRetract (id : Id) (expect : Option Nat) (s : Store) (tx : Tx) : PS :=
       else if x.row.val = 1 then .ok s tx1
       else .ok s (markChanged tx1 id { x with row := { x.row with val := 1 } } .retract)
 
+/-- the identity stub `governance::purge::stub` puts in a row's place: a default row, every content
+column empty. For an Assertion that includes its lifecycle `status`, which is then the empty string —
+neither `active` (0) nor `retracted` (1), code 2: a `RETRACT … EXPECT STATE "active"` that follows the
+`PURGE` of the same Assertion (in the same statement or a later one) fails its guard -/
+def stubRow (k : Kind) : Row := { val := if k = .assertion then 2 else 0 }
+
 /-- `PURGE` of one target (`clauses::purge`, `governance::purge::stage`, `Transaction::stage_purge`):
 the target is loaded; a dry run only warns; otherwise the staged row becomes the identity stub
 (content gone, state `purged`, version kept so that the commit bumps it once) and the element's
@@ -442,7 +448,7 @@ def pPurge (id : Id) (bad : Bool) (s : Store) (tx : Tx) : PS :=
       if tx1.dry then .ok s tx1
       else if bad then .fail s tx1 .invalid
       else
-        let y : Staged := { x with row := {}, state := .purged, changed := true, op := .purge, erase := true }
+        let y : Staged := { x with row := stubRow id.kind, state := .purged, changed := true, op := .purge, erase := true }
         .ok s { tx1 with staged := stSet tx1.staged id y }
 
 /-- mint a shell, then continue with its id -/
